@@ -139,6 +139,22 @@ def cases(tier, seed):
                     out.append({"tree": tree, "roots": ["r1"], "args": ["--min", "0"] + flt + threads + G.transform_args("barrierkeep", "in"),
                                 "env": {"FCLONES_VERIF_DISK_KIND": "ssd", "FCV_TR_BARRIER_DIR": "@TMPDIR@/../fcv-barrier",
                                         "FCV_TR_BARRIER_N": "4"}, "meta": meta, "repeat": 2})
+    # a transform that fails ONCE (for the first file of the class, after two bytes of output) in a cached run; the
+    # same command again, now working: the second report must be complete - nothing the failed attempt left behind
+    # (in the cache) may make a readable file drop out of its class
+    for L in (10, 5000):
+        vs = variants(L)
+        tree = [{"p": "r1/d%d/f%d" % (i % 2, i), "k": "file", "c": vs[0]} for i in range(3)] + \
+               [{"p": "r1/d0/other", "k": "file", "c": vs[1]}]
+        for mode in ("pipe", "in"):
+            for flt in ([], ["--rf-over", "0"], ["--unique"]):
+                for threads in (["-t", "1"], []):
+                    meta = {"L": L, "combo": [0, 0, 0, 1], "layout": "transform_fails_once", "hard": False,
+                            "filter": " ".join(flt) or "default", "disk": "ssd", "extra": ["--cache"] + threads, "tr": ["failonce", mode]}
+                    out.append({"tree": tree, "roots": ["r1"], "args": ["--min", "0", "--cache"] + flt + threads + G.transform_args("failonce", mode),
+                                "env": {"FCLONES_VERIF_DISK_KIND": "ssd", "FCV_TR_FAIL_PREFIX": "hex:" + C.content(vs[0])[:4].hex(),
+                                        "FCV_TR_MARKER": "@TMPDIR@/../failed-once"},
+                                "meta": meta, "repeat": 2, "judge_only_last": True})
     # overlapping input paths under a depth limit: what one root may not descend into, another root reaches directly
     tree = [{"p": "r1/f0", "k": "file", "c": ["base", 10, 0]}, {"p": "r1/d1/f1", "k": "file", "c": ["base", 10, 0]},
             {"p": "r1/d1/sub/f2", "k": "file", "c": ["base", 10, 0]}, {"p": "r1/d1/sub/deep/f3", "k": "file", "c": ["base", 10, 0]},
@@ -225,6 +241,8 @@ def judge(case, obs):
             "suffix_size_exceeds_len": "--max-suffix-size" in meta["extra"] and "1MiB" in meta["extra"]}
     outcome = []
     for ri, run in enumerate(obs["runs"]):
+        if case.get("judge_only_last") and ri < len(obs["runs"]) - 1:
+            continue
         if run["timeout"]:
             viol.append(dict(feat, kind="hang", detail="group did not finish: %s" % case["args"]))
             continue
